@@ -131,7 +131,11 @@ def respond (line : String) : String :=
     match CRoutine.ofSexp c, listOfSexp aggEntryOfSexp d with
     | some c, some d =>
       (match addAggregatedResources d (remove == "1") c with
-       | .ok c' => Sexp.toString (l [a "ok", c'.toSexp])
+       | .ok c' =>
+         -- also report whether the order `_topological_sort`'s model produced is a valid expansion order (hypothesis of
+         -- C15_expansion_is_path_sum_partial)
+         let topo := match aggOrder d with | some order => if topoOK d [] order then "topo-ok" else "topo-bad" | none => "topo-none"
+         Sexp.toString (l [a "ok", c'.toSexp, a topo])
        | .error e => Sexp.toString (errSexp e))
     | _, _ => "(bad-request aggregate)"
   | some (.atom "latex" :: .atom showNonRoot :: r :: _) =>
